@@ -9,4 +9,11 @@ pid, n = sys.argv[1], sys.argv[2]
 p = props[pid]
 wt = f"/tmp/wt-{pid}-{n}"
 out = f"/tmp/seeded-out/{pid}-{n}"
-print(open('/verif/tools/seed_prompt.txt').read().format(pid=pid, n=n, wt=wt, out=out, title=p['title'], statement=p['statement'], quant=p['quantifier']['text'], why=p['why_tests_cant'], files=', '.join(p['anchors']['files'])))
+text = open('/verif/tools/seed_prompt.txt').read()
+# from variant 4 on, each sub-agent is pointed at one mechanism of the property record (still only the
+# property's own text), so that the seeded changes spread over the code behind the property
+mech = p['anchors'].get('mechanism', [])
+if int(n) >= 4 and mech:
+    m = mech[(int(n) - 4) % len(mech)]
+    text += f"\n\nFor this variant, look first at this mechanism of the property (but any site that breaks the property is fine if this one offers nothing subtle): {m['name']} - {m['where']}. Avoid the most common seeded bugs (plain off-by-one on a length limit, dropping one header, comparing a prefix of a signature); prefer state carried across calls/frames, rarely taken branches, error paths, interactions of two features, boundary values of time/size, and behaviour that only shows under a particular configuration.\n"
+print(text.format(pid=pid, n=n, wt=wt, out=out, title=p['title'], statement=p['statement'], quant=p['quantifier']['text'], why=p['why_tests_cant'], files=', '.join(p['anchors']['files'])))
